@@ -42,6 +42,14 @@ def run(c):
                     add(list(fl), ex, pipe, klass="small")
                     if n <= 2:
                         add(list(fl), ex, pipe, fork=True, klass="small")
+    # the sync socket and the exec descriptor next to each other inside the scratch area, reached after 1..m moved entries
+    for n in (5, 7, 10):
+        fl = [0, 1, 2] + [(i * 7) % 3 for i in range(n - 3)]          # every entry from slot 3 on has its source below its slot: all are moved
+        for X in range(n, 2 * n + 1):
+            add(list(fl), X + 1, [X - 1, X], klass="adjacent")         # socket, then exec
+            add(list(fl), X, [X - 1, X + 1], klass="adjacent")         # exec, then socket
+            add(list(fl), X + 2, [X - 1, X], klass="adjacent")
+            add(list(fl), X + 1, [X - 1, X], fork=True, klass="adjacent")
     nrand = 300 if c.quick() else 3000
     for _ in range(nrand):
         n = r.choice([1, 2, 3, 5, 8, 13, 14, 15, 16, 20, 24])
